@@ -10,6 +10,55 @@ FN = 'exactpack.solvers.suolson.timmes:so_wave'
 UNITS = ('M', 'L', 'T', 'K', 'E')      # E: temperature expressed as an energy (eV)
 
 
+DOC = {   # the conversion the module documents (and the property states), over so_wave's own names
+    'xpos': 'rt3 * opac * zpos',
+    'tau': '4.0 * asol * clight * opac * time / alpha',
+    'epsilon': '4.0 * asol / alpha',
+    'ener_in': 'asol * (trad_bc_ev / kev) ** 4',
+}
+
+
+def conversion(model, b, fi, res):
+    """xpos = sqrt3*opac*z, tau = 4ac*opac*t/alpha, epsilon = 4a/alpha, E_in = a*T_bc^4 as normal forms
+    over so_wave's own constants (rt3, asol, clight, kev are atoms): any algebraically equivalent
+    rewriting passes, a different formula does not."""
+    from ..nf import NFEval, NAN
+    from .c03 import expr_nf
+    vals = {}
+    for func, tnode, vnode in b.assign_log:
+        if func is fi:
+            vals[tnode.id] = vnode
+    need = set(DOC) | {'rt3', 'asol', 'clight', 'kev'}
+    if need - set(vals):
+        raise AnalysisError('so_wave locals %s vanished' % sorted(need - set(vals)))
+    ev = NFEval([])
+    # constants and arguments are atoms
+    env = {}
+    for nm in ('rt3', 'clight', 'kev', 'ssol'):
+        if nm in vals:
+            ev.memo[vals[nm].nid] = ev.atom('const:' + nm)
+            env[nm] = ev.atom('const:' + nm)
+    env['asol'] = ev.nf(vals['asol'])
+    for a in fi.node.args.args:
+        env[a.arg] = ev.atom('input:' + a.arg)
+    for nm, formula in DOC.items():
+        res.obligations += 1
+        res.evaluations += 1
+        res.nontrivial += 1
+        got = ev.nf(vals[nm])
+        want = expr_nf(ev, formula, env)
+        if got is not NAN and want is not NAN and got.key() == want.key():
+            res.discharged += 1
+            res.sample({'rule': 'C18.conversion', 'quantity': nm, 'documented': formula, 'normal_form': got.key()[:120]})
+        else:
+            res.add(Finding(PROP, 'C18.conversion', fi.module.relpath, fi.qualname, '%s is not %s' % (nm, formula),
+                            "so_wave: `%s` is not the documented conversion %s = %s (normal form %s versus %s): the physical "
+                            "temperatures are no longer related to the dimensionless Su-Olson solution by the stated "
+                            "conversion with the user's opacity / specific-heat coefficient / boundary temperature"
+                            % (nm, nm, formula, got.key()[:120] if got is not NAN else 'NaN', want.key()[:120]),
+                            line=getattr(vals[nm].origin[1], 'lineno', 0), construct=vals[nm].src[:100]))
+
+
 def run(model, tier):
     res = Result(PROP)
     res.explanation = (
@@ -19,7 +68,9 @@ def run(model, tier):
         '(xpos, tau, epsilon) must be dimensionless for one consistent assignment of dimensions to opac and alpha, '
         'and both returned temperatures in eV must have the dimension of trad_bc_ev. This decides that the '
         "physical temperatures are related to the dimensionless solution by the stated conversion with the user's "
-        'opacity, specific-heat coefficient and boundary temperature; the integral representations themselves '
+        'opacity, specific-heat coefficient and boundary temperature. In addition the normal forms of xpos, tau, epsilon and '
+        'the incident energy density must equal the documented conversion (sqrt3*opac*z, 4ac*opac*t/alpha, 4a/alpha, a*T_bc^4) '
+        "over so_wave's own constants; the integral representations themselves "
         '(PDE, Marshak condition) are numeric and not decided. History independence of the module globals '
         'posx/tau/epsilon/jwant is decided under C06.')
     res.rule_text = 'one constraint per operator site of so_wave; plus 3 dimensionless-argument and 2 output obligations'
@@ -51,6 +102,7 @@ def run(model, tier):
     res.discharged = S.constraints - len(S.inconsistencies)
     res.evaluations = S.constraints
     res.nontrivial = S.nontrivial + S.checked
+    conversion(model, b, fi, res)
     res.analysed.append(FN)
     res.extra['inferred'] = {k: S.show(v) for k, v in ev.input_dims.items()}
     for node, what, a, b2 in S.samples[:10]:
